@@ -14,6 +14,7 @@ import (
 	"math/rand"
 	"net/http"
 	"net/url"
+	"sort"
 	"strconv"
 	"strings"
 
@@ -24,7 +25,7 @@ import (
 )
 
 const preamble = `From Coq Require Import List NArith Bool.
-From Fabio Require Import Lib.Bytes Lib.Pack Model.Glob Model.Lookup Check.C03.
+From Fabio Require Import Lib.Outcome Lib.Bytes Lib.Pack Model.Glob Model.Lookup Model.LookupCmd Check.C03.
 Import ListNotations.
 Local Open Scope N_scope.
 `
@@ -407,11 +408,20 @@ func main() {
 		// upper-case Host with glob matching disabled (F-C03-1, repaired by 3f5e3c8) and the open defects, in their pure form
 		{"upper-host-glob-off-fixed-3f5e3c8", []def{{"foo.com", "/"}}, request{"FOO.com", false, "/"}, 0, true},
 		{"upper-host-glob-off-fixed-3f5e3c8", []def{{"foo.com", "/"}, {"", "/"}}, request{"Foo.com", false, "/"}, 0, true},
-		{"F2-iprefix-shorter-first", []def{{"", "/fo"}, {"", "/Foo"}}, request{"foo.com", false, "/foo/bar"}, 1, false},
-		{"F3-qmark-before-exact", []def{{"?.foo.com", "/"}, {"1.foo.com", "/"}}, request{"1.foo.com", false, "/"}, 0, false},
-		{"F4-empty-star-before-exact", []def{{"*foo.com", "/"}, {"foo.com", "/"}}, request{"foo.com", false, "/"}, 0, false},
-		{"F5-colon-key-rewritten", []def{{"foo.com:", "/"}, {"foo.com", "/"}, {"*", "/"}}, request{"foo.com:", false, "/"}, 0, false},
-		{"F5-colon-key-rewritten", []def{{"foo.com:", "/"}, {"*", "/"}}, request{"foo.com:", false, "/"}, 0, false},
+		{"iprefix-shorter-first-fixed-c1f03c0", []def{{"", "/fo"}, {"", "/Foo"}}, request{"foo.com", false, "/foo/bar"}, 1, false},
+		{"qmark-before-exact-fixed-bc98e3c", []def{{"?.foo.com", "/"}, {"1.foo.com", "/"}}, request{"1.foo.com", false, "/"}, 0, false},
+		{"empty-star-before-exact-fixed-bc98e3c", []def{{"*foo.com", "/"}, {"foo.com", "/"}}, request{"foo.com", false, "/"}, 0, false},
+		{"F3-qmark-before-longer-suffix", []def{{"?.foo.com", "/"}, {"*1.foo.com", "/"}}, request{"1.foo.com", false, "/"}, 0, false},
+		{"F3-qmark-before-longer-suffix", []def{{"?.y.x", "/"}, {"*1.y.x", "/"}, {"*", "/"}}, request{"1.y.x", false, "/"}, 0, false},
+		{"qmark-after-longer-suffix-letter", []def{{"?.y.x", "/"}, {"*b.y.x", "/"}}, request{"b.y.x", false, "/"}, 0, false},
+		{"empty-host-hostless-after-wildcard-fixed-1814501", []def{{"", "/"}, {"*", "/"}}, request{"", false, "/"}, 0, false},
+		{"empty-host-hostless-after-wildcard-fixed-1814501", []def{{"", "/"}, {"**:443", "/"}, {"*", "/x"}}, request{":443", true, "/"}, 0, false},
+		{"empty-host-glob-off", []def{{"", "/"}, {"*", "/"}}, request{"", false, "/"}, 0, true},
+		{"iprefix-case-variants", []def{{"foo.com", "/foo"}, {"foo.com", "/FOO"}, {"foo.com", "/Foo/b"}, {"foo.com", "/fOO/B"}, {"foo.com", "/fo"}}, request{"foo.com", false, "/foo/bar"}, 1, false},
+		{"prefix-case-variants", []def{{"foo.com", "/foo"}, {"foo.com", "/FOO"}, {"foo.com", "/Foo/b"}, {"foo.com", "/fOO/B"}, {"foo.com", "/fo"}}, request{"foo.com", false, "/FOO/bar"}, 0, false},
+		{"exact-with-port-vs-pattern", []def{{"*a.y.x", "/"}, {"a.y.x:80", "/"}, {"?.y.x", "/"}}, request{"a.y.x", false, "/"}, 0, false},
+		{"colon-key-kept-fixed-cf1c479", []def{{"foo.com:", "/"}, {"foo.com", "/"}, {"*", "/"}}, request{"foo.com:", false, "/"}, 0, false},
+		{"colon-key-kept-fixed-cf1c479", []def{{"foo.com:", "/"}, {"*", "/"}}, request{"foo.com:", false, "/"}, 0, false},
 		{"F6-gobwas-prefix-suffix-overlap", []def{{"b.*.com", "/"}}, request{"b.com", false, "/"}, 0, false},
 		{"F6-gobwas-prefix-suffix-overlap", []def{{"foo.com", "/*/"}}, request{"foo.com", false, "/"}, 2, false},
 		{"F6-gobwas-single-qmark-empty", []def{{"?", "/"}}, request{"", false, "/"}, 0, false},
@@ -500,6 +510,317 @@ func main() {
 		}
 		run.Add("lookup-host", vh.App("CLookupHost", coqDefs(defs), vh.HxS(h), impl),
 			map[string]interface{}{"table": strings.Split(strings.TrimSpace(text), "\n"), "host": h, "selected": sel})
+	}
+
+	// 2e. tables built by command SEQUENCES: adds, then del / weight commands with mixed-case
+	// hosts and tag selectors, possibly more adds; requests under the deleted paths
+	{
+		type cmd struct {
+			kind          int // 0 add 1 del 2 weight
+			svc, src, dst string
+			wk, wd        int
+			tags          []string
+		}
+		text := func(c cmd) string {
+			tg := ""
+			if len(c.tags) > 0 {
+				tg = ` tags "` + strings.Join(c.tags, ",") + `"`
+			}
+			switch c.kind {
+			case 0:
+				return "route add " + c.svc + " " + c.src + " " + c.dst + tg
+			case 1:
+				l := "route del"
+				for _, f := range []string{c.svc, c.src, c.dst} {
+					if f != "" {
+						l += " " + f
+					}
+				}
+				return l + tg
+			default:
+				w := fmt.Sprintf("0.%0*d", c.wd, c.wk)
+				if c.svc != "" {
+					return "route weight " + c.svc + " " + c.src + " weight " + w + tg
+				}
+				return "route weight " + c.src + " weight " + w + tg
+			}
+		}
+		coqCmd := func(c cmd) string {
+			tags := make([]string, len(c.tags))
+			for i := range c.tags {
+				tags[i] = vh.HxS(c.tags[i])
+			}
+			return "(" + strings.Join([]string{vh.N(c.kind), vh.HxS(c.svc), vh.HxS(c.src), vh.HxS(c.dst),
+				"(" + vh.N(c.wk) + ", " + vh.N(c.wd) + ")", vh.List(tags)}, ", ") + ")"
+		}
+		addCmdCase := func(class string, cmds []cmd, rq request, m int, globOff bool) {
+			for _, c := range cmds {
+				if c.src == "" {
+					continue
+				}
+				h, p := c.src, "/"
+				if i := strings.IndexByte(c.src, '/'); i >= 0 {
+					h, p = c.src[:i], c.src[i:]
+				}
+				if !keyDomain(h) || !globDomain(p) {
+					run.Exclude("route host/path with class, alternation or escape syntax (outside the glob model)")
+					return
+				}
+			}
+			lines := make([]string, len(cmds))
+			items := make([]string, len(cmds))
+			for i, c := range cmds {
+				lines[i], items[i] = text(c), coqCmd(c)
+			}
+			sample := map[string]interface{}{"commands": lines, "host": rq.Host, "tls": rq.TLS, "path": rq.URI, "matcher": matcherNames[m], "glob_disabled": globOff}
+			t, err := route.NewTable(bytes.NewBufferString(strings.Join(lines, "\n") + "\n"))
+			impl := vh.Err(0)
+			if err == nil {
+				req := &http.Request{Method: "GET", Host: rq.Host, URL: &url.URL{Path: rq.URI}, Header: http.Header{}}
+				if rq.TLS {
+					req.TLS = &tls.ConnectionState{}
+				}
+				var tg *route.Target
+				if p, v := vh.Recover(func() { tg = t.Lookup(req, "", pick0, route.Matcher[matcherNames[m]], globCache, globOff) }); p {
+					run.Violation(run.NextID(), fmt.Sprintf("Table.Lookup panicked on a table built by commands: %v", v), sample)
+					return
+				}
+				impl = vh.Ok(vh.None)
+				if tg != nil {
+					found := false
+					for hk, rs := range t {
+						for _, rt := range rs {
+							for _, x := range rt.Targets {
+								if x == tg {
+									impl = vh.Ok(vh.Some(vh.Pair(vh.HxS(hk), vh.HxS(rt.Path))))
+									sample["selected_route"] = hk + rt.Path
+									found = true
+								}
+							}
+						}
+					}
+					if !found {
+						run.Violation(run.NextID(), "Table.Lookup returned a target that is not in the table", sample)
+						return
+					}
+				}
+			} else {
+				sample["newtable_error"] = err.Error()
+			}
+			run.Add(class, vh.App("CCmdLookup", vh.List(items), vh.HxS(rq.Host), vh.Bool(rq.TLS), vh.HxS(rq.URI), vh.N(m), vh.Bool(globOff), impl), sample)
+		}
+		svcs := []string{"sa", "sb", "sc"}
+		tagsets := [][]string{nil, nil, {"a"}, {"b"}, {"a", "b"}}
+		for i := 0; i < run.Scale(260, 8000); i++ {
+			focus := randHost(r)
+			base := pathBases[r.Intn(len(pathBases))]
+			tport := []string{"", "", "", ":80"}[r.Intn(4)]
+			var cmds []cmd
+			var srcs []string
+			nk := 1 + r.Intn(3)
+			for k := 0; k < nk; k++ {
+				key := keyFor(r, focus, tport)
+				if r.Intn(3) == 0 {
+					key = focus
+				}
+				for _, p := range append(pathsFor(r, base, 1+r.Intn(3)), "/") {
+					if r.Intn(4) == 0 {
+						continue
+					}
+					src := key + p
+					srcs = append(srcs, src)
+					cmds = append(cmds, cmd{kind: 0, svc: svcs[r.Intn(len(svcs))], src: src, dst: fmt.Sprintf("http://u%d.internal:80/", len(cmds)), tags: tagsets[r.Intn(len(tagsets))]})
+				}
+			}
+			if len(srcs) == 0 {
+				continue
+			}
+			mixed := func(src string) string { // the host part in another letter case
+				i := strings.IndexByte(src, '/')
+				if i < 0 {
+					i = len(src)
+				}
+				switch r.Intn(3) {
+				case 0:
+					return strings.ToUpper(src[:i]) + src[i:]
+				case 1:
+					return randCase(r, src[:i]) + src[i:]
+				}
+				return src
+			}
+			nd := 1 + r.Intn(3)
+			for k := 0; k < nd; k++ {
+				victim := cmds[r.Intn(len(cmds))]
+				for victim.kind != 0 {
+					victim = cmds[r.Intn(len(cmds))]
+				}
+				switch r.Intn(8) {
+				case 0, 1, 2:
+					cmds = append(cmds, cmd{kind: 1, svc: victim.svc, src: mixed(victim.src)})
+				case 3:
+					cmds = append(cmds, cmd{kind: 1, svc: victim.svc, src: mixed(victim.src), dst: victim.dst})
+				case 4:
+					cmds = append(cmds, cmd{kind: 1, svc: victim.svc})
+				case 5:
+					cmds = append(cmds, cmd{kind: 1, svc: []string{"", victim.svc}[r.Intn(2)], tags: [][]string{{"a"}, {"b"}, {"a", "b"}}[r.Intn(3)]})
+				case 6:
+					cmds = append(cmds, cmd{kind: 2, svc: victim.svc, src: mixed(victim.src), wk: 1 + r.Intn(9), wd: 1, tags: victim.tags})
+				default:
+					cmds = append(cmds, cmd{kind: 2, src: mixed(victim.src), wk: 25, wd: 2, tags: []string{"a"}})
+				}
+				if r.Intn(3) == 0 {
+					cmds = append(cmds, cmd{kind: 0, svc: svcs[r.Intn(len(svcs))], src: mixed(srcs[r.Intn(len(srcs))]), dst: fmt.Sprintf("http://u%d.internal:80/", len(cmds))})
+				}
+			}
+			for q := 0; q < 3; q++ {
+				rq := genRequest(r, focus, base, tport)
+				if q == 0 { // under the path of a route that a del named
+					for _, c := range cmds {
+						if c.kind == 1 && c.src != "" {
+							if j := strings.IndexByte(c.src, '/'); j >= 0 {
+								rq.URI = c.src[j:] + []string{"", "/x"}[r.Intn(2)]
+								rq.Host = focus + tport
+							}
+						}
+					}
+				}
+				m := []int{0, 0, 1, 2}[r.Intn(4)]
+				addCmdCase("commands/"+matcherNames[m], cmds, rq, m, r.Intn(5) == 0)
+			}
+		}
+		// directed: the last target of the longest route is deleted through a mixed-case host
+		for _, withFallback := range []bool{false, true} {
+			cmds := []cmd{{kind: 0, svc: "sa", src: "shop.example.com/api", dst: "http://u0.internal:80/"},
+				{kind: 0, svc: "sb", src: "shop.example.com/", dst: "http://u1.internal:80/"}}
+			if withFallback {
+				cmds = append(cmds, cmd{kind: 0, svc: "sc", src: "/", dst: "http://u2.internal:80/"})
+			}
+			for _, del := range []cmd{{kind: 1, svc: "sa", src: "Shop.example.com/api"}, {kind: 1, svc: "sa", src: "SHOP.EXAMPLE.COM/api", dst: "http://u0.internal:80/"}, {kind: 1, svc: "sa", src: "shop.example.com/api"}} {
+				for m := 0; m < 3; m++ {
+					addCmdCase("commands/directed-del-mixed-case", append(append([]cmd(nil), cmds...), del), request{"shop.example.com", false, "/api/v1"}, m, m == 1)
+				}
+			}
+		}
+	}
+
+	// 2f. many matching hosts: 13-40 host keys that ALL match the request host (nested
+	// wildcards, stars matching the empty string, '?', prefixes, middle cuts, default-port
+	// forms), the exact host present or not, with or without a route for the path
+	for i := 0; i < run.Scale(70, 1500); i++ {
+		h := []string{"1u-api.b.x", "eu-api.a.b.x", "a.b.y.x", "1.2.foo.com"}[r.Intn(4)]
+		set := map[string]bool{"*": true, "**": true}
+		for a := 0; a <= len(h); a++ {
+			set["*"+h[a:]] = true
+			set[h[:a]+"*"] = true
+			for b := a; b <= len(h); b++ {
+				if r.Intn(6) == 0 {
+					set[h[:a]+"*"+h[b:]] = true
+				}
+				if r.Intn(25) == 0 {
+					set["*"+h[a:b]+"*"] = true
+				}
+			}
+			if a < len(h) && r.Intn(3) == 0 {
+				set[h[:a]+"?"+h[a+1:]] = true
+				set["*"+"?"+h[a+1:]] = true
+			}
+		}
+		var pats []string
+		for p := range set {
+			g, err := glob.Compile(p)
+			if err == nil && g.Match(h) && p != h {
+				pats = append(pats, p)
+			}
+		}
+		sort.Strings(pats)
+		r.Shuffle(len(pats), func(a, b int) { pats[a], pats[b] = pats[b], pats[a] })
+		n := 13 + r.Intn(28)
+		if n > len(pats) {
+			n = len(pats)
+		}
+		var defs []def
+		for _, p := range pats[:n] {
+			if r.Intn(5) == 0 {
+				p += ":80"
+			}
+			defs = append(defs, def{p, "/"})
+			if r.Intn(4) == 0 {
+				defs = append(defs, def{p, "/foo"})
+			}
+		}
+		switch r.Intn(4) {
+		case 0: // no exact host
+		case 1: // exact host with a route for every path
+			defs = append(defs, def{h, "/"})
+		default: // exact host without a route for the request path
+			defs = append(defs, def{h, "/only/here"})
+		}
+		if r.Intn(3) == 0 {
+			defs = append(defs, def{"", "/"})
+		}
+		r.Shuffle(len(defs), func(a, b int) { defs[a], defs[b] = defs[b], defs[a] })
+		addLookup("many-matching-hosts", defs, request{[]string{h, strings.ToUpper(h), h + ":80"}[r.Intn(3)], false, []string{"/foo/bar", "/x", "/only/here/1"}[r.Intn(3)]}, 0, false)
+	}
+
+	// 2d. sortHostsReverseHostPort directly: ASCII lists (trailing colons, ports, duplicates,
+	// patterns, the empty key) against the model; lists with non-ASCII and invalid UTF-8
+	// hosts are outside the model: there the output must be a permutation of the input
+	// (the hosts are table keys and must keep their bytes)
+	{
+		pool := []string{"", "a.x", "a.x:", "a.x:80", "*.x", "*a.x", "?.x", "b.a.x", "*", "x", "x:", "*.x:", "a.x::", "*:8080", "a.*.x", "1.x", "*1.x", "A.x", "a.x:443",
+			"{a,b}.x", "{eu,us}-api.x", "eu-api.x", "*-api.x", "*.b.x", "*a.b.x", "a.b.x", "[ab].x", "[a-c].b.x", "*[ab].x:80", "a]x", "*.x:8080", "**.x", "?.b.x", "*x", "*.a.b.x", "c.a.b.x", "\\*.x", "a.x:8080", "1.b.x", "?.?.x"}
+		for i := 0; i < run.Scale(320, 5000); i++ {
+			n := r.Intn(6)
+			if i%4 == 3 { // long lists: beyond the 12 elements up to which pdqsort is an insertion sort
+				n = 13 + r.Intn(52)
+			}
+			hs := make([]string, n)
+			for k := range hs {
+				if r.Intn(3) == 0 {
+					hs[k] = keyFor(r, randHost(r), ports[r.Intn(len(ports))])
+					if r.Intn(4) == 0 {
+						hs[k] += ":"
+					}
+				} else {
+					hs[k] = pool[r.Intn(len(pool))]
+				}
+			}
+			ok := true
+			for _, h := range hs {
+				ok = ok && printable(h) && !strings.HasPrefix(h, "[")
+			}
+			if !ok {
+				continue
+			}
+			in := append([]string(nil), hs...)
+			out := route.VerifSortHosts(append([]string(nil), hs...))
+			items := func(l []string) string {
+				x := make([]string, len(l))
+				for k := range l {
+					x[k] = vh.HxS(l[k])
+				}
+				return vh.List(x)
+			}
+			run.Add("sort-hosts", vh.App("CSortHosts", items(in), items(out)), map[string]interface{}{"hosts": in, "sorted": out})
+		}
+		odd := []string{"b\xfccher.x", "\xff.x", "*.\xff.x", "\xffx:", "b\u00fccher.example", "*.b\u00fccher.example", "\u65e5\u672c.x", "a\xc3.x:80", "\xed\xa0\x80.x", "x"}
+		for i := 0; i < run.Scale(60, 1000); i++ {
+			n := 2 + r.Intn(4)
+			hs := make([]string, n)
+			for k := range hs {
+				hs[k] = odd[r.Intn(len(odd))]
+			}
+			out := route.VerifSortHosts(append([]string(nil), hs...))
+			a, b := append([]string(nil), hs...), append([]string(nil), out...)
+			sort.Strings(a)
+			sort.Strings(b)
+			if strings.Join(a, "\x00") != strings.Join(b, "\x00") {
+				run.Violation(-1, "sortHostsReverseHostPort rewrote a non-ASCII / invalid UTF-8 host: the sorted hosts are not the hosts handed in",
+					map[string]interface{}{"hosts": fmt.Sprintf("%q", hs), "sorted": fmt.Sprintf("%q", out)})
+				break
+			}
+			run.Notes["non_ascii_host_lists_checked"] = i + 1
+		}
 	}
 
 	// 3. the glob model against gobwas/glob (compiled without separators, as fabio does)
